@@ -8,6 +8,8 @@ on non-lazy inputs (`n` chained nodes, optional node `s` if `b`) and, for factor
     ["run", i, "s"|"f"]      task_i(worker="debug", cache_root=shared|fresh)  -> outputs
     ["set", i, field, v]     task_i.field = v
     ["clear"]                Workflow.clear_cache()
+    ["mut", i, v]            task_i.x.append(v)   IN-PLACE mutation of a list input — only in the hand-written histories of
+                             corpus/wfcache/mutation.jsonl (see `mutation_stream`), never generated, not in the Lean machine
 
 Parties:  impl  = the history executed in this process on the real code (every op observed);
           model = Lean state machine of the three-level cache + per-instance memo + result store (WfCache/Model.lean with
@@ -43,12 +45,21 @@ META = {
     "applied to its key's values (CacheInv); C30_superset is the superset-of-lazy lemma.  The full statement is refuted for the "
     "model by C30_witness_stale (D19: w.construct(); w.x = 10; w() runs the graph built with the old x) and "
     "C30_witness_closure (D28: classes differing only in closure values share a cache entry); C30_witness_lazy_branch shows "
-    "why LazyParametric is needed.  The Lean machine is tied to pydra by executing generated histories (≤ 6 ops quick, ≤ 8 "
+    "why LazyParametric is needed.  Repeated runs over the same node/State objects (which the cache causes): "
+    "C30_create_graph_idempotent_Simple_partial proves, on the WfState model, that for every workflow of the class Simple (no "
+    "combiner, no scalar splitter, no shared origins) a second _create_graph + run over the state objects left by the first run "
+    "gives exactly the first run's result; C30_witness_rerun_partial_zip (D29: second run PydraStateError) and "
+    "C30_witness_rerun_name_clash (D39: second run AttributeError) refute the unrestricted statement "
+    "(C30_create_graph_not_idempotent); the second-run model is compared with pydra on a sample of C03's generated workflows.  "
+    "The Lean machine is tied to pydra by executing generated histories (≤ 6 ops quick, ≤ 8 "
     "thorough; 1–3 definitions incl. factory-made classes and split nodes; lazy sets ⊆ {x, y}; shared and fresh cache roots) "
     "on the real code, in the Lean machine, and — final operation only — in a fresh interpreter.",
     "note": "Trusted: Lean kernel; hand-written Lean machine (tied to workflow.py::Workflow.construct and "
     "compose/workflow.py::WorkflowTask.construct by differential execution only); the concrete Lean interpretation of the "
-    "generated definitions; generator reach.  Not covered: in-place mutation of a mutable input *value* (same family as D19), "
+    "generated definitions; generator reach.  In-place mutation of a mutable input *value* is not an operation of the Lean "
+    "machine (its values are immutable): it is exercised by 15 hand-written histories (corpus/wfcache/mutation.jsonl) against a "
+    "fresh interpreter only — D40 (the cached graph aliases the caller's list: another task with the old values is served the "
+    "mutated list) and the D19 variant (memo + snapshot) are attributed by match rule alone.  Not covered: "
     "constructors that branch on lazy inputs (outside the stated hypothesis), hash collisions (C08).",
     "rule": "case = (definitions, task instances, history of ≤ 6/8 ops); distinct by canonical JSON; non-trivial = the history "
     "contains at least two cache-relevant ops (construct/tconstruct/run) that can interact (same class hash)",
@@ -76,6 +87,14 @@ OBLIGATIONS = [
         "sigA_closureFree",
         "sigA_hashInj",
         "sigA_lazyParametric",
+    )
+] + [
+    "PydraModel.WfState." + n
+    for n in (
+        "C30_create_graph_idempotent_Simple_partial",
+        "C30_witness_rerun_partial_zip",
+        "C30_witness_rerun_name_clash",
+        "C30_create_graph_not_idempotent",
     )
 ]
 LEAN_TARGETS = ["PydraModel.Props.C30"]
@@ -109,6 +128,78 @@ def closure_clash(case) -> bool:
             ks = seen.setdefault(df["group"], set())
             ks.add(df["k"])
     return any(len(ks) > 1 for ks in seen.values())
+
+
+def _vals_before(case, i, pos):
+    """Input values of task i just before op number `pos` (sets and in-place mutations applied)."""
+    v = dict(case["tasks"][i])
+    for op in case["ops"][:pos]:
+        if op[0] == "set" and op[1] == i:
+            v[op[2]] = op[3]
+        elif op[0] == "mut" and op[1] == i:
+            v["x"] = list(v["x"]) + [op[2]]
+    return v
+
+
+def mut_leak(case) -> bool:
+    """D40: the final op constructs/runs task j; an EARLIER construction of a different task i of the same non-split
+    definition, with x among the non-lazy inputs, put a graph into the class-level cache that aliases task i's list; the
+    list was then mutated in place; no clear_cache since; and task j's values are the ones task i had at that construction
+    (so j's request finds i's entry: exact hit, or superset-of-lazy hit when i was constructed with more lazy inputs)."""
+    ops = case["ops"]
+    last = ops[-1]
+    if last[0] not in ("construct", "tconstruct", "run"):
+        return False
+    j = last[1]
+    vj = _vals_before(case, j, len(ops) - 1)
+    lazy_j = set(last[2]) if last[0] == "construct" else set()
+    if last[0] == "run" and last[2] == "s":
+        return False  # a shared root may serve the stored result instead
+    for p, op in enumerate(ops[:-1]):
+        if op[0] not in ("construct", "tconstruct", "run") or op[1] == j:
+            continue
+        i = op[1]
+        if case["tasks"][i]["def"] != case["tasks"][j]["def"] or case["defs"][case["tasks"][i]["def"]].get("split"):
+            continue
+        lazy_i = set(op[2]) if op[0] == "construct" else set()
+        if "x" in lazy_i or not lazy_j <= lazy_i:  # exact hit: equal lazy sets; superset-of-lazy hit: lazy_j ⊂ lazy_i
+            continue
+        vi = _vals_before(case, i, p)
+        if not isinstance(vi["x"], list) or any(vi[f] != vj[f] for f in wfcache.FIELDS if f not in lazy_i):
+            continue
+        later = ops[p + 1 : -1]
+        if any(o[0] == "clear" for o in later):
+            continue
+        if any(o[0] == "mut" and o[1] == i for o in later):
+            return True
+    return False
+
+
+def mut_after_memo(case) -> bool:
+    """D19 by in-place mutation: the final op runs / tconstructs task i of a SPLIT definition (the graph holds a snapshot of
+    the list) whose list was mutated in place after the instance memoised its construction."""
+    ops = case["ops"]
+    last = ops[-1]
+    if last[0] not in ("tconstruct", "run") or (last[0] == "run" and last[2] == "s"):
+        return False
+    i = last[1]
+    if not case["defs"][case["tasks"][i]["def"]].get("split"):
+        return False
+    memo = False
+    for op in ops[:-1]:
+        if op[0] in ("tconstruct", "run") and op[1] == i:
+            memo = True
+        elif op[0] == "mut" and op[1] == i and memo:
+            return True
+    return False
+
+
+def attribute_mutation(case) -> str | None:
+    if mut_leak(case):
+        return "D40"
+    if mut_after_memo(case):
+        return "D19"
+    return None
 
 
 def attribute(case) -> str | None:
@@ -273,6 +364,37 @@ def run_cases(ctx, cases, label="generated"):
         )
 
 
+def mutation_stream(ctx):
+    """In-place mutation of a list input between the operations (corpus/wfcache/mutation.jsonl: hand-written histories,
+    each with the finding it must show or `null` = must agree with a fresh interpreter).  The Lean machine has immutable
+    values, so there is no model party here: impl (history in this process) vs the fresh interpreter on the final op; a
+    difference is attributed only by the match rules `mut_leak` (D40) / `mut_after_memo` (D19), and the rule computed from
+    the history must be the finding the corpus names."""
+    recs = load_corpus("mutation.jsonl")
+    if not recs:
+        return
+    cases = [r["case"] for r in recs]
+    impls = [wfcache.run_history(c, ctx.scratch) for c in cases]
+    refs = fresh_final(cases, chunk=max(1, (len(cases) + 3) // 4))
+    shown = {}
+    for r, c, i, ref in zip(recs, cases, impls, refs):
+        if isinstance(ref, dict) and "child-failed" in ref:
+            raise core.Infra(f"fresh interpreter failed: {ref['child-failed']}")
+        rule = attribute_mutation(c)
+        if rule != r["id"]:
+            ctx.tie_broken.append({"kind": "mutation-match-rule-vs-corpus", "case": c, "rule": rule, "corpus": r["id"]})
+        spec_ok = i[-1] == ref
+        ctx.count("mutation:" + ("agrees-with-fresh" if spec_ok else f"differs-from-fresh:{rule}"))
+        if not spec_ok and rule is not None:
+            shown[rule] = True
+        ctx.judge(c, i, None, spec_ok, nontrivial=True, defect=rule,
+                  what="in-place mutation history: final op vs a fresh interpreter holding the mutated values")
+    ctx.extra["mutation_histories"] = len(cases)
+    known = {f["id"] for f in ctx.known()}
+    if "D40" in known:
+        ctx.finding("D40", bool(shown.get("D40")), "corpus/wfcache/mutation.jsonl: another task with the pre-mutation values is served the mutated list")
+
+
 def load_corpus(name):
     p = CORPUS / name
     if not p.exists():
@@ -320,6 +442,7 @@ def correspondence(ctx):
         fresh = fresh_final([r["case"] for r in wit])
         for r, i, f in zip(wit, impl_last, fresh):
             ctx.finding(r["id"], i != f, f"final op in the history: {json.dumps(i)[:160]}; fresh interpreter: {json.dumps(f)[:160]}")
+    mutation_stream(ctx)
     # the domain boundary (not a finding): a constructor branching on a lazy input leaks through the superset path
     for r in load_corpus("boundary.jsonl"):
         i = wfcache.run_history(r["case"], ctx.scratch)[-1]
